@@ -797,7 +797,7 @@ MANIFEST = dict(
          "forward conversion again with an absolute and a relative uncertainty attached, with the target given as a "
          "BaseUnits / Quantity object, and with the source built as x*Unit().<u> after an in-place conversion of the bare "
          "attribute; augmented assignments a+=b, a-=b; array conversions asked twice. "
-         "22 996 cases per quick run, about 6e4 in the thorough tier, every one executed.",
+         "45 422 cases per quick run, 116 196 in the thorough tier, every one executed.",
     note="Numerical agreement to 1e-9 relative (identity 1e-12), not bit-exact; magnitudes are a finite alphabet of "
          "representatives, other magnitudes rely on the formulas being value-independent; prefix `da`, undocumented "
          "level pairs and compound expressions beyond X/Hz are outside the alphabet; oracle formulas are hand-written "
